@@ -59,6 +59,7 @@ type Contract struct {
 	Modifies []Clause // expressions naming the cells a call may modify; nil+!Pure => everything reachable
 	ModSet   bool
 	Notes    []string
+	FrameTrusted string // reason why the frame condition is trusted rather than checked syntactically
 	Stable   []string // parameters (pointers to structs) whose own cells no callee modifies
 }
 
@@ -300,6 +301,11 @@ func parseContractFile(path string) (*ContractFile, error) {
 		case "dead":
 			for _, d := range strings.Fields(rest) {
 				cur.Dead[d] = true
+			}
+		case "frame-trusted":
+			cur.FrameTrusted = rest
+			if rest == "" {
+				cur.FrameTrusted = "unspecified"
 			}
 		case "stable":
 			cur.Stable = append(cur.Stable, strings.Fields(rest)...)
